@@ -296,6 +296,10 @@ fn curve_work<G: Cv>(progs: &[&Program], o: &Opts, start: std::time::Instant, re
             let out = judge::<G>(&env, &b.prog, &rp.comms, &rp.parts, o.seed);
             if matches!(d, DevSel::RefHonest) {
                 if let Out::Agree { accept: false, why } = &out {
+                    if why.starts_with("does not decode") {
+                        // the decoder rejects a well-formed encoding: C11's business
+                        return Out::Agree { accept: false, why: format!("precondition: {}", why) };
+                    }
                     // the reference prover follows Appendix A; if both the real verifier and the
                     // separate relations reject its honest proof the reference prover itself is at
                     // odds with the statement built by the roles (harness self-check, reported)
